@@ -12,9 +12,12 @@ ENGINE_TEXT = {
     "frames": ("vf/frames.py", "AST effect analysis: every write of every function of the package against its frame (modifies) contract"),
     "regauto": ("vf/regauto.py", "regex lemmas over all strings: CPython's own parse of the pattern -> ordered tagged automata; inclusion "
                 "against the language of the writer's line templates by subset construction over a partition of all Unicode code points"),
+    "looprule": ("vf/looprule.py", "Hoare loop rule on the real source: a function is cut at a top-level loop from its current AST, prefix / body / suffix are "
+                 "compiled unchanged and executed by CPython on objects of symbolic size; initialisation, preservation and exit premises of the stated "
+                 "invariant are SMT obligations; pieces cross-checked against the function on concrete inputs every run"),
     "rtc": ("props/", "run-time contracts on the real functions (bounded stand-in only, never counted as discharged)"),
     "smt": ("vf/smt.py", "z3 5.1 python API primary, cvc5 1.4 on the same SMT-LIB text for unknowns and in the thorough tier"),
-    "lean": ("vf/lean.py", "Lean 4.33 + Mathlib: lemmas/FiniteSums.lean (sum rules the normaliser uses), lemmas/Hill.lean (Reuss <= Hill <= Voigt)"),
+    "lean": ("vf/lean.py", "Lean 4.33 + Mathlib: lemmas/FiniteSums.lean (sum rules the normaliser uses), lemmas/Hill.lean (Reuss <= Hill <= Voigt), lemmas/Counting.lean (pigeonhole facts of the loop rule)"),
 }
 
 NOTES = ("Contract-based deductive verification of the real code; see DESIGN.md. Exit codes of ./check: 0 held, 1 violation "
